@@ -83,6 +83,7 @@ def project(xml_bytes):
     def end(name):
         n = stack.pop()
         n["text"] = val(n["text"])
+        n["endpos"] = p.CurrentByteIndex
 
     def chars(data):
         n = stack[-1]
